@@ -8,6 +8,10 @@ PKG = "./lib/discov/internal"
 OVERLAY = {"lib/discov/internal/zz_verif_c15_export_test.go": "c15/export_test.go",
            "lib/discov/internal/zz_verif_c15_test.go": "c15/discov_test.go"}
 RUN = "^TestVerifC15$"
+PKG_D = "./lib/discov"
+OVERLAY_D = {"lib/discov/zz_verif_c15_container_test.go": "c15/container_test.go"}
+RUN_D = "^TestVerifC15Container$"
+CONN_OPS = ("disconnect", "resume", "reload")
 
 
 def consts(valof, subs, excl, mid, missed=3):
@@ -36,6 +40,10 @@ META = dict(
          "container code, with a scripted EtcdClient (Get = snapshot+revision, Watch = unbuffered channel fed by "
          "the driver from an event log honouring the requested start revision) seeded into the connection manager; "
          "after every step Values() of every subscriber and the listener counters are compared with the prediction. "
+         "Behaviours with the same connection events are merged into multi-prefix cases (2-3 prefixes on one cluster, "
+         "Discov instantiated per prefix, connection events shared); a sample is replayed with 3 goroutines calling "
+         "Values() in a tight loop, and put/delete-only behaviours are replayed on the container with a reader queued on "
+         "its lock when each event arrives (in-package, verdict still Values() at quiescence). "
          "A sample of behaviours is replayed with Get faults (quick errors, Gets blocking until the request deadline; "
          "RequestTimeout shortened to 200 ms through the exported package variable) injected into a reload or the "
          "initial load: the predictions are unchanged and a load that never finishes although the registry answers "
@@ -43,7 +51,7 @@ META = dict(
     note="Trusted: TLC, the scripted EtcdClient (model etcd written for this check), the barrier (an event of unknown "
          "type whose error log line acknowledges that the watch goroutine is idle again), cluster.reload called "
          "synchronously instead of from the connection-state watcher (statwatcher.go is not exercised). Not covered: "
-         "subscribers attaching while the watch is down, several prefixes on one cluster, "
+         "subscribers attaching while the watch is down, "
          "watch channel errors/cancellation, compaction, a key changing its value without the subscriber seeing the "
          "delete (outside the statement's 'one value during its life' only if the key is re-created; probed, see "
          "evidence notes), events being processed concurrently with a reload (cluster.reload waits for the watch "
@@ -119,6 +127,19 @@ def run(ctx):
     path, cnt = ctx.write_cases("faults.ndjson", fc)
     ctx.replay(PKG, OVERLAY, RUN, path, label="faults", env=dict(VERIF_C15_VALOF=ALLV, VERIF_C15_REQ_TIMEOUT_MS=200),
                shards=16, binp=binp)
+    # several prefixes on one cluster (the reload must reload and re-watch every one of them)
+    mc_ = multi_cases(ctx, allc, 400 if ctx.quick else 6000)
+    path, cnt = ctx.write_cases("multi.ndjson", mc_)
+    ctx.samples += core.sample_of(mc_, 1)
+    ctx.replay(PKG, OVERLAY, RUN, path, label="multi", env=dict(VERIF_C15_VALOF=ALLV), shards=16, binp=binp)
+    # concurrent Values() readers: (a) 3 goroutines reading in a tight loop while the events of a
+    # behaviour are fed, (b) a reader queued on the container lock at the moment each event arrives
+    rc_ = reader_cases(ctx, allc, 3000 if ctx.quick else 40000)
+    path, cnt = ctx.write_cases("readers.ndjson", rc_)
+    ctx.replay(PKG, OVERLAY, RUN, path, label="readers", env=dict(VERIF_C15_VALOF=ALLV, VERIF_C15_READERS=3), shards=8, binp=binp)
+    cc_ = container_cases(allc, 3000 if ctx.quick else 30000)
+    path, cnt = ctx.write_cases("container.ndjson", cc_)
+    ctx.replay(PKG_D, OVERLAY_D, RUN_D, path, label="container", env=dict(VERIF_C15_VALOF=ALLV), shards=16)
     for name, K, kw, num in sims:
         cases = sorted(set(gen(ctx, name, K, simulate=num, **kw)))
         path, cnt = ctx.write_cases(name + ".ndjson", cases)
@@ -152,6 +173,72 @@ def fault_cases(ctx, cases, n):
     return out
 
 
+def multi_cases(ctx, cases, n):
+    """Several prefixes watched through one cluster: Discov.tla instantiated per prefix (independent
+    key spaces and subscribers), the connection events (disconnect / resume / reload) shared.  Built
+    from generated single-prefix behaviours with the same sequence of connection events: between two
+    connection events the local steps of the prefixes are interleaved, each connection event becomes
+    one step carrying every prefix's prediction (and its own changes between snapshot and new watch)."""
+    import json, random
+    rng = random.Random(ctx.seed * 104729 + 15)
+    groups = {}
+    for raw in cases:
+        if '"op":"reload"' not in raw:
+            continue
+        steps = json.loads(raw)
+        sig = tuple(st["op"] for st in steps if st["op"] in CONN_OPS)
+        groups.setdefault(sig, []).append(steps)
+    sigs = sorted(g for g in groups if len(groups[g]) >= 3)
+    out = []
+    while sigs and len(out) < n:
+        sig = sigs[rng.randrange(len(sigs))]
+        picks = rng.sample(groups[sig], 2 + (len(out) % 2))
+        segs = []
+        for b in picks:
+            cur, ss, cs = [], [], []
+            for st in b:
+                if st["op"] in CONN_OPS:
+                    ss.append(cur)
+                    cs.append(st)
+                    cur = []
+                else:
+                    cur.append(st)
+            ss.append(cur)
+            segs.append((ss, cs))
+        merged = []
+        for j in range(len(sig) + 1):
+            pend = [[dict(st, p=i) for st in segs[i][0][j]] for i in range(len(picks))]
+            while any(pend):
+                i = rng.choice([i for i in range(len(picks)) if pend[i]])
+                merged.append(pend[i].pop(0))
+            if j < len(sig):
+                merged.append(dict(op=sig[j], shared=[dict(segs[i][1][j], p=i) for i in range(len(picks))]))
+        out.append(json.dumps(merged, separators=(",", ":")))
+    return out
+
+
+def reader_cases(ctx, cases, n):
+    """Behaviours with batches of events (resume / reload) for the concurrent-reader stage."""
+    import random
+    rng = random.Random(ctx.seed * 611953 + 15)
+    pool = [c for c in cases if '"op":"resume"' in c or '"op":"reload"' in c]
+    return rng.sample(pool, min(n, len(pool)))
+
+
+def container_cases(cases, n):
+    """Behaviours made of one attach followed by watch-delivered puts and deletes only."""
+    import json
+    out = []
+    for raw in cases:
+        if any(('"op":"%s"' % o) in raw for o in CONN_OPS) or raw.count('"op":"attach"') != 1:
+            continue
+        if json.loads(raw)[1]["op"] == "attach":
+            out.append(raw)
+        if len(out) >= n:
+            break
+    return out
+
+
 def probe(ctx):
     """Measured, not judged: a key re-created with another value during an outage."""
     import json, os
@@ -168,4 +255,9 @@ def replay(ctx, rp):
     env = dict(VERIF_C15_VALOF=ALLV)
     if '"faults"' in rp["case"]:
         env["VERIF_C15_REQ_TIMEOUT_MS"] = 200
+    if rp.get("label") == "container":
+        ctx.replay(PKG_D, OVERLAY_D, RUN_D, path, label="replay", env=env)
+        return
+    if rp.get("label") == "readers":
+        env["VERIF_C15_READERS"] = 3
     ctx.replay(PKG, OVERLAY, RUN, path, label="replay", env=env)
